@@ -147,10 +147,26 @@ def _gen_block(w, f, depth, budget, st):
             v = f"v{sid}"
             block.append({"k": "apply", "sid": sid, "id": v, "arg": a})
             vars_.append(v)
-        elif r < 0.94:
-            fn = w.choice(["adjoint", "ctrl", "for_loop", "cond_true", "cond_false"])
+        elif r < 0.93:
+            fn = w.choice(["adjoint", "ctrl", "for_loop", "cond_true", "cond_false", "prod", "prod"])
             body = [_gen_gate(w) for _ in range(w.randint(1, 3))]
             block.append({"k": "fnwrap", "sid": sid, "fn": fn, "body": body, "n": w.randint(0, 3)})
+        elif r < 0.95:
+            # stop_recording in its decorator form, on a helper that may re-enter itself and may open a
+            # context of its own while recording is suspended
+            block.append({"k": "stopdec", "sid": sid, "depth": w.choice([0, 0, 1, 2, 3]),
+                          "body": [_gen_gate(w) for _ in range(w.randint(0, 2))],
+                          "inner_ctx": w.random() < 0.3, "raise_inside": w.random() < 0.15})
+        elif r < 0.96:
+            # library code that uses the same machinery internally
+            block.append({"k": "lib", "sid": sid, "which": w.choice(["trotter1", "trotter2", "trotter4", "trotter4"]),
+                          "n": w.randint(1, 2)})
+        elif r < 0.975:
+            body = [_gen_gate(w) for _ in range(w.randint(0, 3))]
+            block.append({"k": "mkqs", "sid": sid, "body": body, "mp": w.random() < 0.5})
+        elif r < 0.985 and vars_:
+            block.append({"k": "apply_ctx", "sid": sid, "id": f"v{sid}", "arg": w.choice(vars_), "up": w.randint(0, 3)})
+            vars_.append(f"v{sid}")
         else:
             block.append({"k": "bad", "sid": sid, "which": w.choice(["wire_count", "ctrl_overlap", "sample_obs_and_wires"])})
     return block
@@ -486,6 +502,16 @@ def run_case(case):
                 elif fn == "for_loop":
                     qp.for_loop(0, s["n"], 1)(lambda i: body_fn())()
                     expect = [g[0] for g in s["body"]] * s["n"]
+                elif fn == "prod":
+                    # function form of a wrapper constructor: one operator passes through as itself,
+                    # several are recorded only through the product
+                    res = qp.prod(body_fn)()
+                    expect = [s["body"][0][0]] if len(s["body"]) == 1 else ["Prod"]
+                    counters["wrapper_function_forms"] = counters.get("wrapper_function_forms", 0) + 1
+                    if len(s["body"]) > 1 and not (len(getattr(res, "operands", ())) == len(s["body"])
+                                                   and {id(o) for o in res.operands} == {id(o) for o in made}):
+                        viol("function_transform_records_wrong", {"fn": "prod_operands"},
+                             {"expected": [g[0] for g in s["body"]], "observed": describe(res)})
                 elif fn == "cond_true":
                     qp.cond(True, body_fn)()
                     expect = [g[0] for g in s["body"]]
@@ -507,6 +533,109 @@ def run_case(case):
                         fr.indeterminate = True
                     else:
                         fr.items.extend(_Slot(o) for o in fresh)
+            elif k == "stopdec":
+                fr = active()
+                before = len(fr.obj.queue) if fr is not None else 0
+                spec = s
+
+                @QM.stop_recording()
+                def helper(n):
+                    check_stack_suspended()
+                    for g in spec["body"]:
+                        build_gate(g)
+                    if spec["inner_ctx"]:
+                        with AQ() as inner:
+                            o = qp.PauliZ(7)
+                        if not (len(inner.queue) == 1 and inner.queue[0] is o):
+                            viol("context_content_wrong", {"kind": "aq", "how": "inside_stop_recording_decorator",
+                                                           "diff": "inner"}, {"observed": [describe(x) for x in inner.queue]})
+                    if n > 0:
+                        helper(n - 1)
+                        check_stack_suspended()
+                    elif spec["raise_inside"]:
+                        raise Boom()
+
+                def check_stack_suspended():
+                    if QM.recording():
+                        viol("recording_flag_wrong", {"where": "inside_stop_recording_decorator"},
+                             {"expected": False, "observed": True})
+
+                counters["stop_recording_decorator_calls"] = counters.get("stop_recording_decorator_calls", 0) + 1
+                if s["depth"]:
+                    counters["stop_recording_reentered"] = counters.get("stop_recording_reentered", 0) + 1
+                try:
+                    helper(s["depth"])
+                finally:
+                    if fr is not None and not fr.indeterminate and len(fr.obj.queue) != before:
+                        viol("context_content_wrong", {"kind": fr.kind, "how": "stop_recording_decorator", "diff": "extra"},
+                             {"context_sid": fr.sid, "recorded_while_suspended": len(fr.obj.queue) - before})
+                        fr.indeterminate = True
+            elif k == "lib":
+                fr = active()
+                counters["library_calls"] = counters.get("library_calls", 0) + 1
+                order = int(s["which"][-1])
+                terms = [qp.PauliX(0), qp.PauliZ(0)] + ([qp.PauliY(1)] if s["n"] > 1 else [])
+                ham = qp.dot([0.5, 0.3, -0.2][:len(terms)], terms)
+                top = qp.TrotterProduct(ham, 0.1, order=order)
+                ops = top.decomposition()
+                if fr is not None and not fr.indeterminate:
+                    # the Hamiltonian and its terms are consumed by the template; the template and its
+                    # decomposition are recorded
+                    q_now = [o for o in fr.obj.queue if isinstance(o, (Operator, MP))]
+                    known = {id(x.obj) for x in fr.items}
+                    fresh = [o for o in q_now if id(o) not in known]
+                    # (the returned list holds the operators the template computed under stop_recording;
+                    # what is recorded are re-queued copies of them, so they are compared by value)
+                    want = [top] + list(ops)
+                    if not (len(fresh) == len(want) and fresh[0] is top
+                            and all(a.name == b.name and a.wires == b.wires for a, b in zip(fresh[1:], want[1:]))):
+                        viol("context_content_wrong", {"kind": fr.kind, "how": "library_template", "diff": "lib"},
+                             {"expected": len(want), "observed": [describe(o) for o in fresh][:8]})
+                        fr.indeterminate = True
+                    else:
+                        fr.items.extend(_Slot(o) for o in fresh)
+            elif k == "mkqs":
+                fr = active()
+                before = len(fr.obj.queue) if fr is not None else 0
+                made = []
+
+                def qfunc():
+                    for g in s["body"]:
+                        made.append(build_gate(g))
+                    if s["mp"]:
+                        made.append(qp.expval(qp.PauliZ(0)))
+
+                counters["make_qscript_calls"] = counters.get("make_qscript_calls", 0) + 1
+                qs = qp.tape.make_qscript(qfunc)()
+                got = list(qs.operations) + list(qs.measurements)
+                if not (len(got) == len(made) and all(a is b for a, b in zip(got, made))):
+                    viol("context_content_wrong", {"kind": "make_qscript", "how": "normal", "diff": "content"},
+                         {"expected": [describe(x) for x in made], "observed": [describe(x) for x in got]})
+                if fr is not None and not fr.indeterminate and len(fr.obj.queue) != before:
+                    viol("context_content_wrong", {"kind": fr.kind, "how": "make_qscript_leaked_outwards", "diff": "extra"},
+                         {"context_sid": fr.sid, "extra": len(fr.obj.queue) - before})
+                    fr.indeterminate = True
+            elif k == "apply_ctx":
+                a = env.get(s["arg"])
+                frames = stacks[-1]
+                if a is None or not frames or isinstance(a, MP):
+                    continue
+                target = frames[max(0, len(frames) - 1 - s["up"])]
+                counters["applies_to_explicit_context"] = counters.get("applies_to_explicit_context", 0) + 1
+                before_active = len(active().obj.queue)
+                obj = qp.apply(a, context=target.obj)
+                if target is not active() and len(active().obj.queue) != before_active:
+                    viol("context_content_wrong", {"kind": active().kind, "how": "apply_to_other_context", "diff": "extra"},
+                         {"context_sid": active().sid})
+                if target is active():
+                    for attr in ("base", "obs"):
+                        b = getattr(obj, attr, None)
+                        if b is not None and isinstance(b, Operator):
+                            consume(b)
+                    for b in getattr(obj, "operands", ()) or ():
+                        consume(b)
+                env[s["id"]] = obj
+                target.items.append(_Slot(obj, s["id"], applied_from=s["arg"]))
             elif k == "raise":
                 trace.log("raise")
                 raise Boom()
